@@ -34,7 +34,7 @@ type result struct{ args, res, feats string }
 func commitModeOf(sc scen) string {
 	if sc.op == "cac" || sc.mode == "g" {
 		switch sc.kind {
-		case "commit-slow", "ctx-commit":
+		case "commit-slow", "ctx-commit", "gen-self-end":
 			return "s"
 		case "interval":
 			return "a"
